@@ -701,6 +701,9 @@ def c15_vectors(v, wd, q):
     sets["vss"] += [x for x in res.emitted if x["base"] == 0]
     res = run_tlc("GenVss", vss.cfg("pad", [0], [0], 1, lens=list(range(12, 30))), wd); v.add_tlc("GenVss/pad", res)
     sets["vss"] += [x for x in res.emitted if x["base"] == 0]
+    # the placement sweep multiplies every transition by 20 placements x 7 builds: keep the messages up to 300 bytes (element counts
+    # beyond that are the business of C07/C08)
+    sets["vss"] = [x for x in sets["vss"] if len(x["pre"]) <= 300]
     for r in v.cov["tlc_runs"]:
         if not r["ok"]: raise Infra("specification property violated in " + r["run"])
     return sets
@@ -719,6 +722,8 @@ def c15(v, tier, seed):
     places = [("S", o) for o in range(8)]
     # builders and codec also read a source object (payload, path, value): every combination of (PDU address mod 4, source address mod 4)
     places2 = [("S", o + 100 * s_) for o in range(8) for s_ in (range(4) if o < 4 else (0,))]
+    # ... and the payload source exactly 2^32 bytes above the place it is copied to (pointer differences that do not fit 32 bits)
+    places_can = places2 + [("S", 1000 + o) for o in (0, 3)]
     bind = None
     def sweep(name):
         nonlocal bind
@@ -728,7 +733,7 @@ def c15(v, tier, seed):
         tag = "[%s] " % name
         n += pdu.replay(v, ex, bind, sets["pdu"], "C15", tier, rnd, places=places, tag=tag)["executed"]
         n += hostx.raw_replay(v, ex, sets["raw"], rnd, "build=%s" % name if False else "native", places=places)["executed"]
-        n += can.replay(v, ex, sets["can"], rnd, places=places2, tag=tag)["executed"]
+        n += can.replay(v, ex, sets["can"], rnd, places=places_can, tag=tag)["executed"]
         n += vss.replay(v, ex, sets["vss"], rnd, places=places2, tag=tag)["executed"]
         return n, ex.stderr
     total = 0
@@ -1335,6 +1340,8 @@ def c20(v, tier, seed):
     v.cov["model_alone_conflicts"] = {o[0]: sorted(set(b["name"] for b in bad)) for o, bad in model.items() if len(o) == 1 and bad}
     # (2) the compiler: meanings alone, then every ordered tuple as C99 and C++
     alone = headers.alone_values(wd, facts)
+    headers.PLAIN_FUNCS = headers.plain_functions(facts)
+    v.cov["public_functions_that_must_stay_functions"] = sum(len(x) for x in headers.PLAIN_FUNCS.values())
     v.cov["public_constants_and_layout_facts"] = sum(len(x) for x in alone.values())
     orders = list(itertools.permutations(hdrs, 2)) + list(itertools.permutations(hdrs, 3))
     if not q:
